@@ -32,6 +32,20 @@ Classification of a difference at the last step of a history (DESIGN §2.7):
                                 FileFinder in the helper validates listings by directory mtime)
   stale@<import form>           everything else, in particular *every* difference on a history
                                 without clock deviation
+  <ExcType>@<jedi function>     a query raised where the fresh process answered
+
+Levels (simplest first; a level's maximal histories have exactly the stated depth, every shorter
+history is one of their prefixes and is judged on the way):
+  quick     full alphabet depth<=1 and <=2 with <=1 clock deviation; 8-event core depth<=3, none
+  thorough  + core depth<=3 with <=1 deviation; full alphabet depth<=3, core depth<=4 and <=5 with
+            no deviation
+Histories with a clock deviation exist to show that the two clock explanations are the *only*
+staleness there is; their failing members are enumerated explicitly in known_findings.json.
+As soon as a level ends with a difference that has no clock explanation, deeper levels are not
+explored (the shortest counterexamples are the report).
+
+Development aids (never set by bin/check): JV_C09_DEV_ORACLE_CACHE=<file> keeps the oracle table
+of one jedi tree between runs; JV_C09_DEV_MAX_LEVEL=<n> stops after the first n levels.
 """
 import hashlib
 import json
@@ -54,9 +68,9 @@ OLD = T0 - 1000          # mtime of a file "moved into place" (~o)
 # generated project
 # ------------------------------------------------------------------------------------------
 M_VER = {
-    'A': "def fa(x):\n    return 10\nshared = 10\nclass K:\n    ka = 1\n",
-    'B': "def fb(x):\n    return ''\nshared = ''\nclass K:\n    kb = 2\n",
-    'C': "# version C\nimport os\ndef fc(x, y):\n    return [x]\nshared = [1]\nclass K:\n"
+    'A': "def zfa(x):\n    return 10\nshared = 10\nclass K:\n    ka = 1\n",
+    'B': "def zfb(x):\n    return ''\nshared = ''\nclass K:\n    kb = 2\n",
+    'C': "# version C\nimport os\ndef zfc(x, y):\n    return [x]\nshared = [1]\nclass K:\n"
          "    kc = 3.0\nextra = K()\n",
 }
 assert len(M_VER['A']) == len(M_VER['B']) != len(M_VER['C'])
@@ -77,7 +91,7 @@ MAIN = (
     "from pkg.sub import name\n"    # 5
     "from star import *\n"          # 6
     "m.shared\n"                    # 7
-    "m.K.k\n"                       # 8
+    "m.K\n"                         # 8
     "n.shared\n"                    # 9
     "sub.sub_v\n"                   # 10
     "sub.name\n"                    # 11
@@ -87,15 +101,17 @@ MAIN = (
     "pkg.rel\n"                     # 15
     "pkg.relsub.sub_v\n"            # 16
     "pkg.sub.name\n"                # 17
-    "K().k\n"                       # 18
+    "K\n"                           # 18
     "m.\n"                          # 19
     "n.\n"                          # 20
     "sub.\n"                        # 21
     "pkg.\n"                        # 22
-    "f\n"                           # 23
+    "zf\n"                          # 23
     "from pkg import \n"            # 24
     "from m import \n"              # 25
     "import \n"                     # 26
+    "m.K.kb\n"                      # 27
+    "K.kc\n"                        # 28
 )
 PROJECT_NAMES = ('m', 'n', 'pkg', 'star', 'main', 'sub')
 
@@ -103,7 +119,7 @@ PROJECT_NAMES = ('m', 'n', 'pkg', 'star', 'main', 'sub')
 PROBES = [
     ('import-m', 'goto', 1, 7), ('import-m', 'infer', 1, 7),
     ('import-m', 'infer', 7, 8), ('import-m', 'goto', 7, 8), ('import-m', 'gotof', 7, 8),
-    ('import-m', 'complete', 8, 5), ('import-m', 'complete', 19, 2),
+    ('import-m', 'infer', 8, 3), ('import-m', 'complete', 19, 2), ('import-m', 'infer', 27, 6),
     ('import-n', 'goto', 2, 7), ('import-n', 'infer', 9, 8), ('import-n', 'complete', 20, 2),
     ('from-pkg-import-sub', 'goto', 4, 16), ('from-pkg-import-sub', 'infer', 4, 16),
     ('from-pkg-import-sub', 'infer', 10, 9), ('from-pkg-import-sub', 'gotof', 11, 8),
@@ -111,8 +127,8 @@ PROBES = [
     ('from-pkg.sub-import-name', 'goto', 5, 20), ('from-pkg.sub-import-name', 'infer', 12, 4),
     ('from-pkg.sub-import-name', 'gotof', 12, 4),
     ('from-star-import', 'infer', 13, 6), ('from-star-import', 'gotof', 13, 6),
-    ('from-star-import', 'infer', 14, 5), ('from-star-import', 'complete', 18, 5),
-    ('from-star-import', 'complete', 23, 1),
+    ('from-star-import', 'infer', 14, 5), ('from-star-import', 'infer', 18, 1),
+    ('from-star-import', 'complete', 23, 2), ('from-star-import', 'gotof', 28, 4),
     ('relative-in-pkg', 'goto', 3, 7), ('relative-in-pkg', 'infer', 15, 7),
     ('relative-in-pkg', 'gotof', 15, 7), ('relative-in-pkg', 'infer', 16, 16),
     ('relative-in-pkg', 'infer', 17, 12), ('relative-in-pkg', 'complete', 22, 4),
@@ -331,7 +347,7 @@ def poison(steps):
     return None
 
 
-def enumerate_histories(alphabet, depth, max_dev, dev_events=None):
+def enumerate_histories(alphabet, depth, max_dev):
     """All enabled histories of exactly `depth` events (shorter ones are their prefixes; some
     event is enabled in every state) with at most max_dev non-default clock answers."""
     out = []
@@ -725,8 +741,8 @@ def _families(tier):
         return [('full16/depth<=1/dev<=1', FULL, 1, 1), ('full16/depth<=2/dev<=1', FULL, 2, 1),
                 ('core8/depth<=3/dev=0', CORE, 3, 0)]
     return [('full16/depth<=1/dev<=1', FULL, 1, 1), ('full16/depth<=2/dev<=1', FULL, 2, 1),
-            ('full16/depth<=3/dev=0', FULL, 3, 0), ('full16/depth<=3/dev<=1', FULL, 3, 1),
-            ('core8/depth<=4/dev=0', CORE, 4, 0)]
+            ('core8/depth<=3/dev<=1', CORE, 3, 1), ('full16/depth<=3/dev=0', FULL, 3, 0),
+            ('core8/depth<=4/dev=0', CORE, 4, 0), ('core8/depth<=5/dev=0', CORE, 5, 0)]
 
 
 def _oracles_for(ctx, snaps, table):
@@ -747,7 +763,11 @@ def run(ctx):
     cpu0 = os.times()
     plans = []
     seen_hist = set()
-    for name, alpha, depth, dev in _families(ctx.tier):
+    fams = _families(ctx.tier)
+    if os.environ.get('JV_C09_DEV_MAX_LEVEL'):      # development aid only
+        fams = fams[:int(os.environ['JV_C09_DEV_MAX_LEVEL'])]
+        ctx.note('DEV: only the first %d levels' % len(fams))
+    for name, alpha, depth, dev in fams:
         hs = []
         for h in enumerate_histories(alpha, depth, dev):
             if tuple(h) not in seen_hist:
@@ -838,7 +858,7 @@ def run(ctx):
                 prefixes[pid_] = s['digest']
                 if any(split_event(e)[1] for e in t['events'][:s['k']]):
                     n_dev += 1
-                if s['nonempty'] < len(PROBES) // 3:
+                if s['nonempty'] < 5:
                     ctx.note('vacuity warning: %s answers only %d of %d probes'
                              % (pid_, s['nonempty'], len(PROBES)))
                 if s['bad']:
